@@ -157,7 +157,8 @@ def newton_raphson(net, funct, mode, solver_vars, tols, pit_names, iter_name):
         _verif_hooks.emit("iter", stage=mode, niter=niter, vars=list(solver_vars), errors=[errors[v][niter] for v in solver_vars],
                           tols=list(tols), residual=residual_norm, tol_res=tol_res, method=nonlinear_method,
                           alpha_used=_vh_alpha, alpha_next=get_net_option(net, "alpha") if _verif_hooks.ENABLED else None,
-                          converged=bool(net.converged))
+                          converged=bool(net.converged),
+                          residual_nan=bool(np.isnan(np.asarray(residual, dtype=float)).any()) if _verif_hooks.ENABLED else None)
         niter += 1
     write_internal_results(net, **errors)
     kwargs = dict()
